@@ -1,5 +1,714 @@
-From Coq Require Import ZArith List Bool Lia.
+(* C18: lemmas and theorems about lib/LogBuf.v (model) over gen/LogBufGen.v (translated constants / shape facts).
+   The proofs unfold the translated values (trim_cmp, trim_pop, add_event_stages, sub_accept_cmp, ...): an edit of the
+   source that changes one of them changes the generated file and these proofs are re-checked against it. *)
+From Coq Require Import ZArith List Bool Lia Sorting.Permutation Sorting.Sorted.
 Import ListNotations.
 Require Import Verif.lib.PyLite Verif.gen.LogBufGen Verif.lib.LogBuf.
 Local Open Scope Z_scope.
-Lemma stub : True. Proof. exact I. Qed.
+
+(* ================================================================== A. event numbers *)
+
+Lemma next_num_spec seq : next_num seq = (seq + 1, seq + 1).
+Proof. reflexivity. Qed.
+
+Lemma init_seq_val : init_seq = -1.
+Proof. reflexivity. Qed.
+
+Lemma msg_inner_seq c s e : s_seq (fst (fst (msg_inner c s e))) = s_seq s.
+Proof. unfold msg_inner. destruct (cmpZ _ _ _); reflexivity. Qed.
+
+Lemma msg_inner_sizes c s e : s_sizes (fst (fst (msg_inner c s e))) = s_sizes s.
+Proof. unfold msg_inner. destruct (cmpZ _ _ _); reflexivity. Qed.
+
+Lemma fallback_seq c s num id rp : s_seq (fst (fallback c s num id rp)) = s_seq s.
+Proof.
+  unfold fallback. destruct rp; [|reflexivity].
+  pose proof (msg_inner_seq c s (mkEv num FAC_INTERNAL fallback_level true (fallback_id id))) as H.
+  destruct (msg_inner c s _) as [[s2 r] n2]. exact H.
+Qed.
+
+Lemma fallback_sizes c s num id rp : s_sizes (fst (fallback c s num id rp)) = s_sizes s.
+Proof.
+  unfold fallback. destruct rp; [|reflexivity].
+  pose proof (msg_inner_sizes c s (mkEv num FAC_INTERNAL fallback_level true (fallback_id id))) as H.
+  destruct (msg_inner c s _) as [[s2 r] n2]. exact H.
+Qed.
+
+Lemma end_of_call_seq s n : s_seq (end_of_call s n) = s_seq s.
+Proof. reflexivity. Qed.
+
+Definition ret_of (s : st) (o : op) : option Z :=
+  match o with
+  | Msg (Some n) _ _ _ _ _ => Some n
+  | Msg None _ _ _ _ _ => Some (s_seq s + 1)
+  | MsgBad _ _ => Some (s_seq s + 1)
+  | _ => None
+  end.
+
+Lemma step_ret c s o : snd (step c s o) = ret_of s o.
+Proof.
+  destruct o as [numo fac lvl okf rp id | rp id | f l n | f l | ]; cbn [step ret_of].
+  - destruct numo as [n|]; cbn [next_num];
+      [ set (s0 := mkSt (s_seq s) _ _ _ _) | rewrite next_num_spec; set (s0 := mkSt (s_seq s + 1) _ _ _ _) ];
+      destruct (msg_inner c s0 _) as [[s1 r] n1]; destruct r; unfold msg_catch_all;
+      try (destruct (fallback c s1 _ id rp) as [s2 n2]); reflexivity.
+  - rewrite next_num_spec. unfold msg_catch_all. destruct (fallback c _ _ id rp) as [s2 n2]. reflexivity.
+  - reflexivity.
+  - reflexivity.
+  - destruct (i_rep (s_inc s)) as [r|]; [destruct (r_timer r)|]; reflexivity.
+Qed.
+
+Lemma step_seq c s o : s_seq (fst (step c s o)) = if is_auto o then s_seq s + 1 else s_seq s.
+Proof.
+  destruct o as [numo fac lvl okf rp id | rp id | f l n | f l | ]; cbn [step is_auto].
+  - destruct numo as [n|].
+    + set (s0 := mkSt (s_seq s) _ _ _ _).
+      pose proof (msg_inner_seq c s0 (mkEv n fac lvl okf id)) as H1.
+      destruct (msg_inner c s0 _) as [[s1 r] n1]. cbn [fst] in H1. unfold s0 in H1; cbn [s_seq] in H1. destruct r; unfold msg_catch_all.
+      * pose proof (fallback_seq c s1 n id rp) as H2. destruct (fallback c s1 n id rp) as [s2 n2]. cbn [fst] in *.
+        rewrite end_of_call_seq. congruence.
+      * cbn [fst]. rewrite end_of_call_seq. exact H1.
+    + rewrite next_num_spec. set (s0 := mkSt (s_seq s + 1) _ _ _ _).
+      pose proof (msg_inner_seq c s0 (mkEv (s_seq s + 1) fac lvl okf id)) as H1.
+      destruct (msg_inner c s0 _) as [[s1 r] n1]. cbn [fst] in H1. unfold s0 in H1; cbn [s_seq] in H1. destruct r; unfold msg_catch_all.
+      * pose proof (fallback_seq c s1 (s_seq s + 1) id rp) as H2. destruct (fallback c s1 _ id rp) as [s2 n2]. cbn [fst] in *.
+        rewrite end_of_call_seq. congruence.
+      * cbn [fst]. rewrite end_of_call_seq. exact H1.
+  - rewrite next_num_spec. unfold msg_catch_all.
+    pose proof (fallback_seq c (mkSt (s_seq s + 1) (s_sizes s) (s_thr s) (s_bufs s) (s_inc s)) (s_seq s + 1) id rp) as H2.
+    destruct (fallback c _ _ id rp) as [s2 n2]. cbn [fst] in *. rewrite end_of_call_seq. exact H2.
+  - reflexivity.
+  - reflexivity.
+  - destruct (i_rep (s_inc s)) as [r|]; [destruct (r_timer r)|]; reflexivity.
+Qed.
+
+(* msg() always returns a number to its caller: no exception escapes (model: result type; code: measured by the oracle) *)
+Theorem msg_total c s o : is_call o = true -> exists n, snd (step c s o) = Some n.
+Proof.
+  intros H. rewrite step_ret. destruct o as [[n|] ? ? ? ? ? | ? ? | | | ]; cbn in *; try discriminate; eauto.
+Qed.
+
+(* the numbers handed out by the logger itself *)
+Fixpoint autos (ops : list op) (rs : list (option Z)) : list Z :=
+  match ops, rs with
+  | o :: t, Some n :: rt => if is_auto o then n :: autos t rt else autos t rt
+  | o :: t, None :: rt => autos t rt
+  | _, _ => []
+  end.
+
+Fixpoint zrange (a : Z) (n : nat) : list Z := match n with O => [] | S k => a :: zrange (a + 1) k end.
+
+Definition count_auto (ops : list op) : nat := List.length (filter is_auto ops).
+
+Lemma autos_exact c ops : forall s, autos ops (snd (run c s ops)) = zrange (s_seq s + 1) (count_auto ops).
+Proof.
+  induction ops as [|o t IH]; intros s; [reflexivity|].
+  cbn [run]. pose proof (step_ret c s o) as Hr. pose proof (step_seq c s o) as Hs.
+  destruct (step c s o) as [s1 r]. cbn [fst snd] in *. specialize (IH s1).
+  destruct (run c s1 t) as [s2 rs]. cbn [snd] in *. subst r.
+  unfold count_auto in *. cbn [filter autos].
+  destruct o as [[n|] ? ? ? ? ? | ? ? | | | ]; cbn [ret_of is_auto] in *; cbn [List.length zrange];
+    rewrite IH, Hs; reflexivity.
+Qed.
+
+Lemma zrange_lower a n : Forall (fun x => a <= x) (zrange a n).
+Proof.
+  revert a; induction n as [|n IH]; intros a; cbn [zrange]; constructor; [lia|].
+  eapply Forall_impl; [|apply (IH (a + 1))]. cbn. intros; lia.
+Qed.
+
+Lemma zrange_sorted a n : StronglySorted Z.lt (zrange a n).
+Proof.
+  revert a; induction n as [|n IH]; intros a; cbn [zrange]; constructor; [apply IH|].
+  eapply Forall_impl; [|apply (zrange_lower (a + 1) n)]. cbn. intros; lia.
+Qed.
+
+Theorem numbers_strictly_increase c ops s :
+  StronglySorted Z.lt (autos ops (snd (run c s ops))) /\ Forall (fun n => s_seq s < n) (autos ops (snd (run c s ops))).
+Proof.
+  rewrite autos_exact. split; [apply zrange_sorted|].
+  eapply Forall_impl; [|apply zrange_lower]. cbn. intros; lia.
+Qed.
+
+(* ================================================================== B. history buffers *)
+
+Lemma aget_aset_same {V} k (v : V) l : aget k (aset k v l) = Some v.
+Proof.
+  induction l as [|[k' v'] t IH]; cbn [aset aget]; [rewrite Z.eqb_refl; reflexivity|].
+  destruct (k =? k') eqn:E; cbn [aget]; rewrite E; [reflexivity | exact IH].
+Qed.
+
+Lemma aget_aset_other {V} k k' (v : V) l : k <> k' -> aget k' (aset k v l) = aget k' l.
+Proof.
+  intros Hne. induction l as [|[k2 v2] t IH]; cbn [aset aget].
+  - destruct (k' =? k) eqn:E; [apply Z.eqb_eq in E; congruence | reflexivity].
+  - destruct (k =? k2) eqn:E; cbn [aget].
+    + apply Z.eqb_eq in E; subst k2. destruct (k' =? k) eqn:E2; [apply Z.eqb_eq in E2; congruence | reflexivity].
+    + destruct (k' =? k2); [reflexivity | exact IH].
+Qed.
+
+Lemma buf_get_set_same b f l q : buf_get (buf_set b f l q) f l = q.
+Proof. unfold buf_get, buf_set, dict_of. rewrite aget_aset_same, aget_aset_same. reflexivity. Qed.
+
+Lemma buf_get_set_other b f l q f' l' : (f, l) <> (f', l') -> buf_get (buf_set b f l q) f' l' = buf_get b f' l'.
+Proof.
+  intros Hne. unfold buf_get, buf_set, dict_of.
+  destruct (Z.eq_dec f f') as [->|Hf].
+  - rewrite aget_aset_same. rewrite aget_aset_other; [reflexivity | congruence].
+  - rewrite aget_aset_other by exact Hf. reflexivity.
+Qed.
+
+(* the trimming loop of add_event:  while len(buffer) > sizelimit: buffer.popleft() *)
+Lemma trim_loop_spec fuel : forall q limit, (List.length q < fuel)%nat ->
+  exists q' r, trim_loop fuel q limit = Some (q', r) /\
+    (exists k, q' = skipn k q) /\
+    (r = false -> Z.of_nat (List.length q') <= limit) /\
+    (r = true -> q' = [] /\ limit < 0).
+Proof.
+  induction fuel as [|fuel IH]; intros q limit Hf; [lia|].
+  cbn [trim_loop]. unfold trim_cmp, cmpZ.
+  destruct (limit <? Z.of_nat (List.length q)) eqn:E.
+  - unfold trim_pop. destruct q as [|x t]; cbn [pop].
+    + exists [], true. split; [reflexivity|]. split; [exists 0%nat; reflexivity|]. split; [discriminate|].
+      intros _. apply Z.ltb_lt in E. cbn in E. split; [reflexivity | lia].
+    + cbn [List.length] in Hf. destruct (IH t limit ltac:(lia)) as (q' & r & H1 & (k & H2) & H3 & H4).
+      exists q', r. split; [exact H1|]. split; [exists (S k); exact H2|]. split; assumption.
+  - exists q, false. split; [reflexivity|]. split; [exists 0%nat; reflexivity|]. split; [|discriminate].
+    intros _. apply Z.ltb_ge in E. exact E.
+Qed.
+
+Lemma trim_spec q limit :
+  exists q' r, trim q limit = Some (q', r) /\
+    (exists k, q' = skipn k q) /\
+    (r = false -> Z.of_nat (List.length q') <= limit) /\
+    (r = true -> q' = [] /\ limit < 0).
+Proof. unfold trim, trim_kind. apply trim_loop_spec. lia. Qed.
+
+Lemma skipn_length_le {A} k (q : list A) : (List.length (skipn k q) <= List.length q)%nat.
+Proof. rewrite skipn_length. lia. Qed.
+
+Definition key (e : event) : Z * Z := (e_fac e, e_lvl e).
+
+(* what add_event does, stage by stage in the translated order *)
+Lemma add_event_unfold c sz b i e :
+  exists q' r, trim (buf_get b (e_fac e) (e_lvl e) ++ [e]) (limit_of sz (e_fac e) (e_lvl e)) = Some (q', r) /\
+    (exists k, q' = skipn k (buf_get b (e_fac e) (e_lvl e) ++ [e])) /\
+    (r = false -> Z.of_nat (List.length q') <= limit_of sz (e_fac e) (e_lvl e)) /\
+    (r = true -> q' = [] /\ limit_of sz (e_fac e) (e_lvl e) < 0) /\
+    let b' := buf_set (buf_set b (e_fac e) (e_lvl e) (buf_get b (e_fac e) (e_lvl e) ++ [e])) (e_fac e) (e_lvl e) q' in
+    add_event c sz b i e =
+      if r then mkAe b' i true (is_some (i_rep i))
+      else if c_qual c && cmpZ incident_cmp (e_lvl e) incident_level
+           then mkAe b' (fst (declare_incident c b' i e)) (snd (declare_incident c b' i e)) (is_some (i_rep i))
+           else mkAe b' i false (is_some (i_rep i)).
+Proof.
+  destruct (trim_spec (buf_get b (e_fac e) (e_lvl e) ++ [e]) (limit_of sz (e_fac e) (e_lvl e))) as (q' & r & H1 & H2 & H3 & H4).
+  exists q', r. split; [exact H1|]. split; [exact H2|]. split; [exact H3|]. split; [exact H4|].
+  unfold add_event, add_event_stages.
+  cbn [fold_left add_stage_step x_raised x_bufs x_inc x_notified].
+  rewrite buf_get_set_same. rewrite H1. cbn [x_raised x_bufs x_inc x_notified].
+  destruct r; [reflexivity|].
+  cbn [add_stage_step x_raised x_bufs x_inc x_notified].
+  destruct (c_qual c && cmpZ incident_cmp (e_lvl e) incident_level); [|reflexivity].
+  destruct (declare_incident c _ i e) as [i' raised]. reflexivity.
+Qed.
+
+Definition bufs_le (M : Z) (b : bufs_t) : Prop := forall f l, Z.of_nat (List.length (buf_get b f l)) <= M.
+Definition sizes_le (M : Z) (sz : sizes_t) : Prop := forall f l, limit_of sz f l <= M.
+
+Lemma buf_get_nil f l : buf_get [] f l = [].
+Proof. reflexivity. Qed.
+
+Lemma add_event_x_bufs c sz b i e :
+  exists q', x_bufs (add_event c sz b i e) =
+             buf_set (buf_set b (e_fac e) (e_lvl e) (buf_get b (e_fac e) (e_lvl e) ++ [e])) (e_fac e) (e_lvl e) q' /\
+    (exists k, q' = skipn k (buf_get b (e_fac e) (e_lvl e) ++ [e])) /\
+    (0 <= limit_of sz (e_fac e) (e_lvl e) -> Z.of_nat (List.length q') <= limit_of sz (e_fac e) (e_lvl e)) /\
+    (limit_of sz (e_fac e) (e_lvl e) < 0 -> q' = []).
+Proof.
+  destruct (add_event_unfold c sz b i e) as (q' & r & H1 & H2 & H3 & H4 & H5).
+  exists q'. split.
+  - cbv zeta in H5. rewrite H5. destruct r; [reflexivity|].
+    destruct (c_qual c && cmpZ incident_cmp (e_lvl e) incident_level); reflexivity.
+  - split; [exact H2|]. split.
+    + intros Hl. destruct r; [destruct (H4 eq_refl); lia | apply H3; reflexivity].
+    + intros Hl. destruct r; [apply H4; reflexivity|]. specialize (H3 eq_refl). lia.
+Qed.
+
+Lemma buf_get_after_sets b f l q1 q2 f' l' :
+  buf_get (buf_set (buf_set b f l q1) f l q2) f' l' = if Z.eqb f f' && Z.eqb l l' then q2 else buf_get b f' l'.
+Proof.
+  destruct (Z.eqb_spec f f') as [->|Hf]; [destruct (Z.eqb_spec l l') as [->|Hl]|]; cbn [andb].
+  - apply buf_get_set_same.
+  - rewrite !buf_get_set_other by congruence. reflexivity.
+  - rewrite !buf_get_set_other by congruence. reflexivity.
+Qed.
+
+(* immediately after an event on (facility, level) that buffer respects its limit and holds the most recent events *)
+Theorem after_event_within_limit c sz b i e :
+  0 <= limit_of sz (e_fac e) (e_lvl e) ->
+  let q := buf_get (x_bufs (add_event c sz b i e)) (e_fac e) (e_lvl e) in
+  Z.of_nat (List.length q) <= limit_of sz (e_fac e) (e_lvl e) /\
+  (exists k, q = skipn k (buf_get b (e_fac e) (e_lvl e) ++ [e])) /\
+  (forall f l, (f, l) <> (e_fac e, e_lvl e) -> buf_get (x_bufs (add_event c sz b i e)) f l = buf_get b f l).
+Proof.
+  intros Hl. cbv zeta. destruct (add_event_x_bufs c sz b i e) as (q' & -> & Hk & Hle & _).
+  rewrite buf_get_after_sets, !Z.eqb_refl. cbn [andb]. split; [apply Hle; exact Hl|]. split; [exact Hk|].
+  intros f l Hne. rewrite buf_get_after_sets.
+  destruct (Z.eqb_spec (e_fac e) f) as [<-|]; [destruct (Z.eqb_spec (e_lvl e) l) as [<-|]|]; cbn [andb]; congruence.
+Qed.
+
+Lemma add_event_bufs_le M c sz b i e :
+  0 <= M -> sizes_le M sz -> bufs_le M b -> bufs_le M (x_bufs (add_event c sz b i e)).
+Proof.
+  intros HM Hs Hb f l. destruct (add_event_x_bufs c sz b i e) as (q' & -> & Hk & Hle & Hneg).
+  rewrite buf_get_after_sets. destruct (Z.eqb (e_fac e) f && Z.eqb (e_lvl e) l); [|apply Hb].
+  destruct (Z_lt_le_dec (limit_of sz (e_fac e) (e_lvl e)) 0) as [Hn|Hp].
+  - rewrite (Hneg Hn). cbn. exact HM.
+  - specialize (Hle Hp). specialize (Hs (e_fac e) (e_lvl e)). lia.
+Qed.
+
+Lemma msg_inner_bufs_le M c s e :
+  0 <= M -> sizes_le M (s_sizes s) -> bufs_le M (s_bufs s) -> bufs_le M (s_bufs (fst (fst (msg_inner c s e)))).
+Proof.
+  intros HM Hs Hb. unfold msg_inner. destruct (cmpZ _ _ _); cbn [fst s_bufs]; [exact Hb|].
+  apply add_event_bufs_le; assumption.
+Qed.
+
+Lemma fallback_bufs_le M c s num id rp :
+  0 <= M -> sizes_le M (s_sizes s) -> bufs_le M (s_bufs s) -> bufs_le M (s_bufs (fst (fallback c s num id rp))).
+Proof.
+  intros HM Hs Hb. unfold fallback. destruct rp; [|exact Hb].
+  pose proof (msg_inner_bufs_le M c s (mkEv num FAC_INTERNAL fallback_level true (fallback_id id)) HM Hs Hb) as H.
+  destruct (msg_inner c s _) as [[s2 r] n2]. exact H.
+Qed.
+
+Definition op_limit_le (M : Z) (o : op) : Prop := match o with SetSize _ _ n => n <= M | _ => True end.
+
+Lemma limit_of_sset f l n sz f' l' :
+  limit_of (sset f l n sz) f' l' = if Z.eqb f' f && Z.eqb l' l then n else limit_of sz f' l'.
+Proof. unfold limit_of, sset. cbn [sget]. destruct (Z.eqb f' f && Z.eqb l' l); reflexivity. Qed.
+
+Lemma step_bounded M c s o :
+  0 <= M -> op_limit_le M o -> sizes_le M (s_sizes s) -> bufs_le M (s_bufs s) ->
+  sizes_le M (s_sizes (fst (step c s o))) /\ bufs_le M (s_bufs (fst (step c s o))).
+Proof.
+  intros HM Ho Hs Hb.
+  destruct o as [numo fac lvl okf rp id | rp id | f l n | f l | ]; cbn [step].
+  - set (nn := match numo with Some n => (n, s_seq s) | None => next_num (s_seq s) end).
+    destruct nn as [num seq']. set (s0 := mkSt seq' _ _ _ _).
+    pose proof (msg_inner_bufs_le M c s0 (mkEv num fac lvl okf id) HM Hs Hb) as H1.
+    pose proof (msg_inner_sizes c s0 (mkEv num fac lvl okf id)) as H1s.
+    destruct (msg_inner c s0 _) as [[s1 r] n1]. cbn [fst] in *.
+    assert (Hs1 : sizes_le M (s_sizes s1)) by (rewrite H1s; exact Hs).
+    destruct r; unfold msg_catch_all.
+    + pose proof (fallback_bufs_le M c s1 num id rp HM Hs1 H1) as H2.
+      pose proof (fallback_sizes c s1 num id rp) as H2s.
+      destruct (fallback c s1 num id rp) as [s2 n2]. cbn [fst] in *.
+      unfold end_of_call, with_inc; cbn [s_sizes s_bufs]. split; [rewrite H2s; exact Hs1 | exact H2].
+    + cbn [fst]. unfold end_of_call, with_inc; cbn [s_sizes s_bufs]. split; assumption.
+  - rewrite next_num_spec. unfold msg_catch_all. set (s0 := mkSt _ _ _ _ _).
+    pose proof (fallback_bufs_le M c s0 (s_seq s + 1) id rp HM Hs Hb) as H2.
+    pose proof (fallback_sizes c s0 (s_seq s + 1) id rp) as H2s.
+    destruct (fallback c s0 _ id rp) as [s2 n2]. cbn [fst] in *.
+    unfold end_of_call, with_inc; cbn [s_sizes s_bufs]. split; [rewrite H2s; exact Hs | exact H2].
+  - cbn [fst s_sizes s_bufs]. split; [|exact Hb]. intros f' l'. rewrite limit_of_sset.
+    destruct (Z.eqb f' f && Z.eqb l' l); [exact Ho | apply Hs].
+  - cbn [fst s_sizes s_bufs]. split; assumption.
+  - destruct (i_rep (s_inc s)) as [r|]; [destruct (r_timer r)|]; cbn [fst with_inc s_sizes s_bufs]; split; assumption.
+Qed.
+
+(* memory stays bounded over ANY history: no buffer ever holds more than the largest configured limit *)
+Theorem buffers_bounded M c ops : forall s,
+  0 <= M -> Forall (op_limit_le M) ops -> sizes_le M (s_sizes s) -> bufs_le M (s_bufs s) ->
+  bufs_le M (s_bufs (fst (run c s ops))).
+Proof.
+  induction ops as [|o t IH]; intros s HM Ho Hs Hb; [exact Hb|].
+  cbn [run]. inversion Ho as [|? ? Ho1 Ho2]; subst.
+  destruct (step_bounded M c s o HM Ho1 Hs Hb) as [Hs1 Hb1].
+  destruct (step c s o) as [s1 r]. cbn [fst] in *.
+  specialize (IH s1 HM Ho2 Hs1 Hb1). destruct (run c s1 t) as [s2 rs]. exact IH.
+Qed.
+
+Lemma init_sizes_le M : DEFAULT_SIZELIMIT <= M -> sizes_le M (s_sizes init).
+Proof. intros H f l. exact H. Qed.
+
+Lemma init_bufs_le M : 0 <= M -> bufs_le M (s_bufs init).
+Proof. intros H f l. exact H. Qed.
+
+Corollary buffers_bounded_from_init M c ops :
+  DEFAULT_SIZELIMIT <= M -> Forall (op_limit_le M) ops -> bufs_le M (s_bufs (fst (run c init ops))).
+Proof.
+  intros HM Ho. assert (0 <= M) by (unfold DEFAULT_SIZELIMIT in HM; lia).
+  apply buffers_bounded; [assumption | exact Ho | apply init_sizes_le; exact HM | apply init_bufs_le; assumption].
+Qed.
+
+(* ================================================================== C. Subscription *)
+
+Inductive subseq {A} : list A -> list A -> Prop :=
+| ss_nil m : subseq [] m
+| ss_cons x l m : subseq l m -> subseq (x :: l) (x :: m)
+| ss_skip x l m : subseq l m -> subseq l (x :: m).
+
+Lemma subseq_refl {A} (l : list A) : subseq l l.
+Proof. induction l; constructor; assumption. Qed.
+
+Lemma subseq_snoc_both {A} (l m : list A) e : subseq l m -> subseq (l ++ [e]) (m ++ [e]).
+Proof.
+  induction 1 as [m | x l m H IH | x l m H IH]; cbn [app].
+  - induction m as [|y m IH]; cbn [app]; [apply ss_cons, ss_nil | apply ss_skip, IH].
+  - apply ss_cons, IH.
+  - apply ss_skip, IH.
+Qed.
+
+Lemma subseq_snoc_skip {A} (l m : list A) e : subseq l m -> subseq l (m ++ [e]).
+Proof. induction 1; cbn [app]; constructor; assumption. Qed.
+
+Lemma subseq_app_l {A} (a b : list A) : forall m, subseq (a ++ b) m -> subseq a m.
+Proof.
+  induction a as [|x a IH]; intros m H; [constructor|].
+  cbn [app] in H. remember (x :: a ++ b) as l eqn:El. induction H as [m | y l m H IHs | y l m H IHs].
+  - discriminate.
+  - inversion El; subst. apply ss_cons, IH, H.
+  - apply ss_skip, IHs, El.
+Qed.
+
+Lemma subseq_length {A} (l m : list A) : subseq l m -> (List.length l <= List.length m)%nat.
+Proof. induction 1; cbn [List.length]; lia. Qed.
+
+Lemma drain_spec maxfl fuel : forall q infl outst dl,
+  let '(q', infl', outst', dl') := drain fuel maxfl q infl outst dl in
+  dl' ++ q' = dl ++ q /\ infl' - infl = outst' - outst /\ infl <= infl' /\ (infl <= maxfl -> infl' <= maxfl) /\
+  (List.length q' <= List.length q)%nat.
+Proof.
+  induction fuel as [|fuel IH]; intros q infl outst dl; cbn [drain].
+  - repeat split; lia.
+  - unfold sub_pop. destruct q as [|x t]; cbn [spop].
+    + repeat split; lia.
+    + unfold sub_room_cmp, cmpZ, sub_inflight_inc. destruct (0 <? maxfl - infl) eqn:E.
+      * specialize (IH t (infl + 1) (outst + 1) (dl ++ [x])).
+        destruct (drain fuel maxfl t (infl + 1) (outst + 1) (dl ++ [x])) as [[[q' infl'] outst'] dl'].
+        destruct IH as (H1 & H2 & H3 & H4 & H5). apply Z.ltb_lt in E.
+        split; [rewrite H1, <- app_assoc; reflexivity|]. cbn [List.length]. repeat split; try lia.
+      * repeat split; lia.
+Qed.
+
+Definition sub_inv (maxq maxfl : Z) (s : sub) : Prop :=
+  Z.of_nat (List.length (q_queue s)) <= maxq /\
+  0 <= q_outstanding s /\ q_outstanding s <= q_inflight s /\ q_inflight s <= maxfl /\
+  subseq (q_delivered s ++ q_queue s) (q_emitted s).
+
+Lemma sub_step_inv maxq maxfl s o : 0 <= maxq -> sub_inv maxq maxfl s -> sub_inv maxq maxfl (sub_step maxq maxfl s o).
+Proof.
+  intros Hq (H1 & H2 & H3 & H4 & H5). destruct o as [e | | | ]; cbn [sub_step].
+  - destruct (q_subscribed s); [|repeat split; assumption].
+    unfold sub_inv, sub_accept_cmp, cmpZ. cbn [q_queue q_inflight q_outstanding q_delivered q_emitted].
+    destruct (Z.of_nat (List.length (q_queue s)) <? maxq) eqn:E.
+    + apply Z.ltb_lt in E. rewrite app_length. cbn [List.length].
+      split; [lia|]. split; [lia|]. split; [lia|]. split; [lia|].
+      rewrite app_assoc. apply subseq_snoc_both. exact H5.
+    + split; [lia|]. split; [lia|]. split; [lia|]. split; [lia|]. apply subseq_snoc_skip. exact H5.
+  - destruct (q_marked s); [|repeat split; assumption].
+    pose proof (drain_spec maxfl (List.length (q_queue s)) (q_queue s) (q_inflight s) (q_outstanding s) (q_delivered s)) as D.
+    destruct (drain _ maxfl (q_queue s) (q_inflight s) (q_outstanding s) (q_delivered s)) as [[[q' infl'] outst'] dl'].
+    destruct D as (D1 & D2 & D3 & D4 & D5).
+    unfold sub_inv. cbn [q_queue q_inflight q_outstanding q_delivered q_emitted].
+    split; [lia|]. split; [lia|]. split; [lia|]. split; [apply D4; exact H4|]. rewrite D1. exact H5.
+  - destruct (0 <? q_outstanding s) eqn:E; [|repeat split; assumption]. apply Z.ltb_lt in E.
+    unfold sub_inv, sub_inflight_dec. cbn [q_queue q_inflight q_outstanding q_delivered q_emitted].
+    repeat split; try lia; assumption.
+  - destruct (0 <? q_outstanding s) eqn:E; [|repeat split; assumption]. apply Z.ltb_lt in E.
+    unfold sub_inv. cbn [q_queue q_inflight q_outstanding q_delivered q_emitted].
+    repeat split; try lia; assumption.
+Qed.
+
+Lemma sub_run_inv maxq maxfl ops : forall s, 0 <= maxq -> sub_inv maxq maxfl s ->
+  sub_inv maxq maxfl (fold_left (sub_step maxq maxfl) ops s).
+Proof.
+  induction ops as [|o t IH]; intros s Hq Hi; [exact Hi|]. cbn [fold_left]. apply IH; [exact Hq|].
+  apply sub_step_inv; assumption.
+Qed.
+
+Lemma sub_init_inv maxq maxfl : 0 <= maxq -> 0 <= maxfl -> sub_inv maxq maxfl sub_init.
+Proof. intros; unfold sub_inv, sub_init; cbn. repeat split; try lia. constructor. Qed.
+
+(* for every schedule of sends, queue turns, acknowledgements and failures of a slow subscriber *)
+Theorem subscriber_bounded maxq maxfl ops : 0 <= maxq -> 0 <= maxfl ->
+  let s := sub_run maxq maxfl ops in
+  Z.of_nat (List.length (q_queue s)) <= maxq /\ 0 <= q_inflight s <= maxfl /\
+  subseq (q_delivered s) (q_emitted s) /\ subseq (q_delivered s ++ q_queue s) (q_emitted s).
+Proof.
+  intros Hq Hf. cbv zeta. unfold sub_run.
+  destruct (sub_run_inv maxq maxfl ops sub_init Hq (sub_init_inv maxq maxfl Hq Hf)) as (H1 & H2 & H3 & H4 & H5).
+  split; [exact H1|]. split; [lia|]. split; [eapply subseq_app_l; exact H5 | exact H5].
+Qed.
+
+
+(* ================================================================== D. incidents *)
+
+Lemma insert_perm e l : Permutation (insert_by_num e l) (e :: l).
+Proof.
+  induction l as [|x t IH]; cbn [insert_by_num]; [apply Permutation_refl|].
+  destruct (e_num e <=? e_num x); [apply Permutation_refl|].
+  eapply perm_trans; [apply perm_skip, IH | apply perm_swap].
+Qed.
+
+Lemma sort_perm l : Permutation (sort_by_num l) l.
+Proof.
+  induction l as [|x t IH]; cbn [sort_by_num fold_right]; [constructor|].
+  eapply perm_trans; [apply insert_perm | apply perm_skip, IH].
+Qed.
+
+Lemma sort_in l x : In x (sort_by_num l) <-> In x l.
+Proof. split; apply Permutation_in; [apply sort_perm | apply Permutation_sym, sort_perm]. Qed.
+
+Definition num_le (a b : event) : Prop := e_num a <= e_num b.
+
+Lemma insert_sorted e l : StronglySorted num_le l -> StronglySorted num_le (insert_by_num e l).
+Proof.
+  induction 1 as [|x t Hs IH Hx]; cbn [insert_by_num]; [repeat constructor|].
+  destruct (e_num e <=? e_num x) eqn:E.
+  - apply Z.leb_le in E. constructor; [constructor; assumption|]. constructor; [exact E|].
+    eapply Forall_impl; [|exact Hx]. unfold num_le. intros; lia.
+  - apply Z.leb_gt in E. constructor; [exact IH|].
+    eapply Permutation_Forall; [apply Permutation_sym, insert_perm|]. constructor; [unfold num_le; lia | exact Hx].
+Qed.
+
+Lemma sort_sorted l : StronglySorted num_le (sort_by_num l).
+Proof. induction l as [|x t IH]; cbn [sort_by_num fold_right]; [constructor | apply insert_sorted, IH]. Qed.
+
+Lemma write_all_ok l : forallb enc l = true -> write_all l = (l, true).
+Proof.
+  induction l as [|e t IH]; cbn [forallb write_all]; [reflexivity|].
+  intros H. apply andb_true_iff in H as [H1 H2]. rewrite H1, (IH H2). reflexivity.
+Qed.
+
+Lemma forallb_perm {A} (p : A -> bool) l m : Permutation l m -> forallb p l = true -> forallb p m = true.
+Proof.
+  intros P H. apply forallb_forall. intros x Hx. rewrite forallb_forall in H. apply H.
+  eapply Permutation_in; [apply Permutation_sym, P | exact Hx].
+Qed.
+
+(* incident_declared when the trigger and everything buffered can be encoded *)
+Lemma incident_stages_ok c b trig :
+  enc trig = true -> forallb enc (all_buffered b) = true ->
+  fold_left (inc_stage_step c b trig) incident_stages (mkAcc [] false false false false) =
+  mkAcc (sort_by_num (all_buffered b)) (c_trailing c) (c_trailing c) (negb (c_trailing c)) false.
+Proof.
+  intros Ht Hb.
+  assert (W : write_all (sort_by_num (all_buffered b)) = (sort_by_num (all_buffered b), true)).
+  { apply write_all_ok. eapply forallb_perm; [apply Permutation_sym, sort_perm | exact Hb]. }
+  unfold incident_stages. cbn [fold_left]. unfold inc_stage_step.
+  destruct (c_trailing c) eqn:Ec;
+    repeat (first [ rewrite Ht | rewrite W | progress cbn [negb app a_failed a_lines a_registered a_timer a_finished] ]);
+    reflexivity.
+Qed.
+
+Lemma incident_declared_ok c b i trig :
+  enc trig = true -> forallb enc (all_buffered b) = true ->
+  incident_declared c b i trig =
+    if c_trailing c
+    then (mkInc (Some (mkRep trig (sort_by_num (all_buffered b)) TRAILING_EVENT_LIMIT true)) (i_zombie i) (i_declared i)
+                (i_recorded i) (i_files i) (i_junk i), false)
+    else (publish (mkRep trig (sort_by_num (all_buffered b)) TRAILING_EVENT_LIMIT false) i, false).
+Proof.
+  intros Ht Hb. unfold incident_declared. rewrite (incident_stages_ok c b trig Ht Hb).
+  destruct (c_trailing c); cbn [negb a_failed a_lines a_registered a_timer a_finished]; reflexivity.
+Qed.
+
+Lemma enc_total e : enc e = true.
+Proof. reflexivity. Qed.
+
+Lemma forallb_enc_total l : forallb enc l = true.
+Proof. apply forallb_forall. intros; apply enc_total. Qed.
+
+Lemma incident_declared_never_fails c b i trig :
+  snd (incident_declared c b i trig) = false /\ i_junk (fst (incident_declared c b i trig)) = i_junk i /\
+  i_zombie (fst (incident_declared c b i trig)) = i_zombie i.
+Proof.
+  rewrite (incident_declared_ok c b i trig (enc_total _) (forallb_enc_total _)).
+  destruct (c_trailing c); cbn; repeat split; reflexivity.
+Qed.
+
+Lemma declare_incident_never_fails c b i e :
+  snd (declare_incident c b i e) = false /\ i_junk (fst (declare_incident c b i e)) = i_junk i /\
+  i_zombie (fst (declare_incident c b i e)) = i_zombie i.
+Proof.
+  unfold declare_incident. destruct (one_reporter_at_a_time && (is_some (i_rep i) || i_zombie i)).
+  - cbn. repeat split; reflexivity.
+  - match goal with |- context [incident_declared c b ?i1 e] =>
+      destruct (incident_declared_never_fails c b i1 e) as (A & B & C) end.
+    split; [exact A|]. split; [exact B | exact C].
+Qed.
+
+(* ---- the trailing events *)
+Lemma trailing_event_step i r ev :
+  i_rep i = Some r -> 1 <= r_remaining r ->
+  trailing_event i ev =
+    mkInc (Some (mkRep (r_trigger r) (if enc ev then r_lines r ++ [ev] else r_lines r) (r_remaining r - 1) (r_timer r)))
+          (i_zombie i) (i_declared i) (i_recorded i) (i_files i) (i_junk i).
+Proof.
+  intros Hr Hl. unfold trailing_event. rewrite Hr. unfold trailing_cmp, trailing_decrement, cmpZ.
+  destruct (0 <=? r_remaining r - 1) eqn:E; [reflexivity | apply Z.leb_gt in E; lia].
+Qed.
+
+Lemma trailing_fold evs : forall i r,
+  i_rep i = Some r -> Z.of_nat (List.length evs) <= r_remaining r ->
+  fold_left trailing_event evs i =
+    mkInc (Some (mkRep (r_trigger r) (r_lines r ++ filter enc evs) (r_remaining r - Z.of_nat (List.length evs)) (r_timer r)))
+          (i_zombie i) (i_declared i) (i_recorded i) (i_files i) (i_junk i).
+Proof.
+  induction evs as [|ev t IH]; intros i r Hr Hl.
+  - cbn [fold_left filter List.length]. rewrite app_nil_r. change (Z.of_nat 0) with 0. rewrite Z.sub_0_r.
+    destruct i as [rep z d rc fl j]; cbn in *. subst rep. destruct r; reflexivity.
+  - cbn [fold_left]. cbn [List.length] in Hl.
+    rewrite (trailing_event_step i r ev Hr) by lia.
+    erewrite IH; [|reflexivity|cbn [r_remaining]; lia].
+    cbn [r_trigger r_lines r_remaining r_timer i_zombie i_declared i_recorded i_files i_junk filter].
+    assert (R : r_remaining r - 1 - Z.of_nat (List.length t) = r_remaining r - Z.of_nat (List.length (ev :: t)))
+      by (cbn [List.length]; lia).
+    rewrite R. destruct (enc ev); [rewrite <- app_assoc|]; reflexivity.
+Qed.
+
+Lemma trailing_event_junk i ev : i_junk (trailing_event i ev) = i_junk i /\ i_zombie (trailing_event i ev) = i_zombie i.
+Proof.
+  unfold trailing_event. destruct (i_rep i) as [r|]; [|split; reflexivity].
+  destruct (cmpZ trailing_cmp _ 0); split; reflexivity.
+Qed.
+
+Lemma trailing_fold_junk evs : forall i, i_junk (fold_left trailing_event evs i) = i_junk i.
+Proof.
+  induction evs as [|ev t IH]; intros i; [reflexivity|]. cbn [fold_left]. rewrite IH. apply trailing_event_junk.
+Qed.
+
+(* the 101st trailing event ends the recording and publishes the file *)
+Lemma trailing_limit_publishes i r ev :
+  i_rep i = Some r -> r_remaining r = 0 ->
+  trailing_event i ev = publish (mkRep (r_trigger r) (r_lines r) (-1) (r_timer r)) i.
+Proof. intros Hr H0. unfold trailing_event. rewrite Hr, H0. reflexivity. Qed.
+
+(* ---- one unrepresentable event is harmless: full strength on the current tree (serialize_total = true) *)
+Theorem incident_recorded c sz b i e :
+  c_qual c = true -> incident_level <= e_lvl e -> i_rep i = None -> i_zombie i = false ->
+  0 <= limit_of sz (e_fac e) (e_lvl e) ->
+  let a := add_event c sz b i e in
+  x_raised a = false /\
+  (c_trailing c = false ->
+     i_files (x_inc a) = i_files i ++ [e :: sort_by_num (all_buffered (x_bufs a))] /\
+     i_recorded (x_inc a) = i_recorded i + 1 /\ i_junk (x_inc a) = i_junk i /\ i_rep (x_inc a) = None) /\
+  (c_trailing c = true ->
+     i_rep (x_inc a) = Some (mkRep e (sort_by_num (all_buffered (x_bufs a))) TRAILING_EVENT_LIMIT true) /\
+     i_junk (x_inc a) = i_junk i).
+Proof.
+  intros Hq Hl Hr Hz Hlim. cbv zeta.
+  destruct (add_event_unfold c sz b i e) as (q' & r & H1 & H2 & H3 & H4 & H5). cbv zeta in H5.
+  destruct r; [destruct (H4 eq_refl); lia|].
+  rewrite H5. rewrite Hq. unfold incident_cmp, cmpZ. cbn [andb].
+  destruct (incident_level <=? e_lvl e) eqn:E; [|apply Z.leb_gt in E; lia].
+  set (b' := buf_set _ _ _ q').
+  unfold declare_incident. rewrite Hr, Hz. unfold one_reporter_at_a_time. cbn [is_some orb andb].
+  rewrite (incident_declared_ok c b' _ e (enc_total _) (forallb_enc_total _)).
+  destruct (c_trailing c); cbn [fst snd x_raised x_inc x_bufs].
+  - split; [reflexivity|]. split; [discriminate|]. intros _. cbn. split; reflexivity.
+  - split; [reflexivity|]. split; [|discriminate]. intros _. cbn. repeat split; reflexivity.
+Qed.
+
+(* the same, valid whatever serialize_to_json_utf8 looks like, for histories whose buffered events can be encoded *)
+Theorem incident_recorded_guarded c sz b i e :
+  c_qual c = true -> incident_level <= e_lvl e -> i_rep i = None -> i_zombie i = false ->
+  0 <= limit_of sz (e_fac e) (e_lvl e) ->
+  let a := add_event c sz b i e in
+  enc e = true -> forallb enc (all_buffered (x_bufs a)) = true ->
+  x_raised a = false /\
+  (c_trailing c = false -> i_files (x_inc a) = i_files i ++ [e :: sort_by_num (all_buffered (x_bufs a))]) /\
+  (c_trailing c = true ->
+     i_rep (x_inc a) = Some (mkRep e (sort_by_num (all_buffered (x_bufs a))) TRAILING_EVENT_LIMIT true)).
+Proof.
+  intros Hq Hl Hr Hz Hlim. cbv zeta.
+  destruct (add_event_unfold c sz b i e) as (q' & r & H1 & H2 & H3 & H4 & H5). cbv zeta in H5.
+  destruct r; [destruct (H4 eq_refl); lia|].
+  rewrite H5. rewrite Hq. unfold incident_cmp, cmpZ. cbn [andb].
+  destruct (incident_level <=? e_lvl e) eqn:E; [|apply Z.leb_gt in E; lia].
+  set (b' := buf_set _ _ _ q'). cbn [x_bufs]. intros He Hb.
+  unfold declare_incident. rewrite Hr, Hz. unfold one_reporter_at_a_time. cbn [is_some orb andb].
+  rewrite (incident_declared_ok c b' _ e He Hb).
+  destruct (c_trailing c); cbn [fst snd x_raised x_inc x_bufs].
+  - split; [reflexivity|]. split; [discriminate|]. intros _. reflexivity.
+  - split; [reflexivity|]. split; [|discriminate]. intros _. reflexivity.
+Qed.
+
+(* the trigger itself is part of what was buffered (unless its buffer is configured to hold nothing) *)
+Lemma trigger_buffered c sz b i e :
+  1 <= limit_of sz (e_fac e) (e_lvl e) -> In e (buf_get (x_bufs (add_event c sz b i e)) (e_fac e) (e_lvl e)).
+Proof.
+  intros Hl. destruct (add_event_unfold c sz b i e) as (q' & r & H1 & (k & H2) & H3 & H4 & H5). cbv zeta in H5.
+  assert (Hb : x_bufs (add_event c sz b i e) =
+               buf_set (buf_set b (e_fac e) (e_lvl e) (buf_get b (e_fac e) (e_lvl e) ++ [e])) (e_fac e) (e_lvl e) q').
+  { rewrite H5. destruct r; [reflexivity|]. destruct (c_qual c && _); reflexivity. }
+  rewrite Hb, buf_get_set_same.
+  (* q' is a suffix of old ++ [e]; it is non-empty unless trimming emptied it, which needs limit < 1 *)
+  unfold trim, trim_kind in H1.
+  assert (G : forall fuel q, trim_loop fuel (q ++ [e]) (limit_of sz (e_fac e) (e_lvl e)) = Some (q', r) -> In e q').
+  { induction fuel as [|fuel IH]; intros q Hq; [discriminate|].
+    cbn [trim_loop] in Hq. unfold trim_cmp, cmpZ, trim_pop in Hq.
+    destruct (limit_of sz (e_fac e) (e_lvl e) <? Z.of_nat (List.length (q ++ [e]))) eqn:E.
+    - destruct q as [|x t]; cbn [app pop] in Hq.
+      + cbn in E. apply Z.ltb_lt in E. lia.
+      + apply (IH t). exact Hq.
+    - inversion Hq; subst. apply in_or_app. right. left. reflexivity. }
+  eapply G. exact H1.
+Qed.
+
+(* ---- nothing is ever abandoned: over ANY history no incident is left as .flog/.bz2.tmp, and no reporter is left
+        referenced-but-dead between calls *)
+Lemma add_event_junk c sz b i e :
+  i_junk (x_inc (add_event c sz b i e)) = i_junk i /\ i_zombie (x_inc (add_event c sz b i e)) = i_zombie i.
+Proof.
+  destruct (add_event_unfold c sz b i e) as (q' & r & H1 & H2 & H3 & H4 & H5). cbv zeta in H5. rewrite H5.
+  destruct r; [split; reflexivity|].
+  destruct (c_qual c && _); [|split; reflexivity]. cbn [x_inc].
+  destruct (declare_incident_never_fails c (buf_set (buf_set b (e_fac e) (e_lvl e) (buf_get b (e_fac e) (e_lvl e) ++ [e]))
+                                                    (e_fac e) (e_lvl e) q') i e) as (_ & J & Z0). split; assumption.
+Qed.
+
+Lemma msg_inner_junk c s e : i_junk (s_inc (fst (fst (msg_inner c s e)))) = i_junk (s_inc s).
+Proof. unfold msg_inner. destruct (cmpZ _ _ _); cbn [fst s_inc]; [reflexivity | apply add_event_junk]. Qed.
+
+Lemma fallback_junk c s num id rp : i_junk (s_inc (fst (fallback c s num id rp))) = i_junk (s_inc s).
+Proof.
+  unfold fallback. destruct rp; [|reflexivity].
+  pose proof (msg_inner_junk c s (mkEv num FAC_INTERNAL fallback_level true (fallback_id id))) as H.
+  destruct (msg_inner c s _) as [[s2 r] n2]. exact H.
+Qed.
+
+Lemma end_of_call_junk s n : i_junk (s_inc (end_of_call s n)) = i_junk (s_inc s).
+Proof. unfold end_of_call, with_inc. cbn [s_inc i_junk]. apply trailing_fold_junk. Qed.
+
+Lemma step_junk c s o : i_junk (s_inc (fst (step c s o))) = i_junk (s_inc s).
+Proof.
+  destruct o as [numo fac lvl okf rp id | rp id | f l n | f l | ]; cbn [step].
+  - set (nn := match numo with Some n => (n, s_seq s) | None => next_num (s_seq s) end).
+    destruct nn as [num seq']. set (s0 := mkSt seq' _ _ _ _).
+    pose proof (msg_inner_junk c s0 (mkEv num fac lvl okf id)) as H1.
+    destruct (msg_inner c s0 _) as [[s1 r] n1]. cbn [fst] in H1. unfold s0 in H1; cbn [s_inc] in H1.
+    destruct r; unfold msg_catch_all.
+    + pose proof (fallback_junk c s1 num id rp) as H2. destruct (fallback c s1 num id rp) as [s2 n2]. cbn [fst] in *.
+      rewrite end_of_call_junk. congruence.
+    + cbn [fst]. rewrite end_of_call_junk. exact H1.
+  - rewrite next_num_spec. unfold msg_catch_all. set (s0 := mkSt _ _ _ _ _).
+    pose proof (fallback_junk c s0 (s_seq s + 1) id rp) as H2. destruct (fallback c s0 _ id rp) as [s2 n2]. cbn [fst] in *.
+    rewrite end_of_call_junk. exact H2.
+  - reflexivity.
+  - reflexivity.
+  - destruct (i_rep (s_inc s)) as [r|]; [destruct (r_timer r)|]; reflexivity.
+Qed.
+
+Theorem nothing_abandoned c ops : forall s, i_junk (s_inc (fst (run c s ops))) = i_junk (s_inc s).
+Proof.
+  induction ops as [|o t IH]; intros s; [reflexivity|]. cbn [run].
+  pose proof (step_junk c s o) as H. destruct (step c s o) as [s1 r]. cbn [fst] in H.
+  specialize (IH s1). destruct (run c s1 t) as [s2 rs]. cbn [fst] in *. congruence.
+Qed.
+
+(* a recording in progress always has its timer: it ends after TRAILING_DELAY at the latest *)
+Definition rep_timed (i : inc_st) : Prop := match i_rep i with Some r => r_timer r = true | None => True end.
